@@ -76,6 +76,8 @@ def _work(args):
         def guarded(name, fn):
             np.random.seed(4242 + k)
             np.random.random(3)
+            if k % 2:
+                np.random.normal()            # leaves a cached Gaussian in the legacy global state (has_gauss = 1)
             before = rng_digest()
             try:
                 fn()
